@@ -1,6 +1,6 @@
 (* C06: save -> load / mmap round-trips to an observationally identical dictionary.
    Only statements closed by `exact`; proofs are in SerialFacts.v. *)
-From X Require Import Base Arr Dac Trie Serial Spec Wf IfaceBuild Builder SerialFacts All AllBuild Examples.
+From X Require Import LayoutGen LayoutFacts Base Arr Dac Trie Serial Spec Wf IfaceBuild Builder SerialFacts All AllBuild Examples.
 Local Open Scope N_scope.
 
 (* every dictionary obtained from a byte file satisfies the shape predicate the theorems need *)
@@ -37,6 +37,11 @@ Theorem C06_for_all_valid_K : forall v tbl K req, valid_keys K = true -> small_k
   load v (save v P) = Ok P /\ (forall r, mmap v (save v P ++ r) = Ok P) /\ lenN (save v P) = memory_in_bytes v P.
 Proof. exact headline_roundtrip. Qed.
 
+(* the member order and types of every visit() in the current headers are the ones Serial.v models
+   (LayoutGen.v is regenerated from the source on every run) *)
+Theorem C06_layout_is_the_modelled_one : layouts_now = layouts_modelled.
+Proof. exact layout_is_the_modelled_one. Qed.
+
 (* non-vacuity: a built dictionary's file loads, so trie_fits is inhabited by a non-trivial structure *)
 Example C06_nonvacuous : exists P, load V8 (ex_bytes V8) = Ok P /\ t_nkeys P = 6 /\ trie_fits V8 P.
 Proof.
@@ -54,3 +59,4 @@ Print Assumptions C06_loaded_fits. Print Assumptions C06_mapped_fits. Print Assu
 Print Assumptions C06_mmap_save. Print Assumptions C06_size. Print Assumptions C06_tag.
 Print Assumptions C06_resave_load. Print Assumptions C06_resave_mmap. Print Assumptions C06_generations.
 Print Assumptions C06_for_all_valid_K.
+Print Assumptions C06_layout_is_the_modelled_one.
